@@ -217,9 +217,10 @@ httpHeaderParseQuotedString(const char *start, const int len, String *val)
             }
         }
         end = pos;
-        while (end < (start+len) && *end != '\\' && *end != '\"' && (unsigned char)*end > 0x1F && *end != 0x7F)
+        // qdtext includes HTAB (RFC 9110 section 5.6.4); other control characters are not allowed
+        while (end < (start+len) && *end != '\\' && *end != '\"' && ((unsigned char)*end > 0x1F || *end == '\t') && *end != 0x7F)
             ++end;
-        if (((unsigned char)*end <= 0x1F && *end != '\r' && *end != '\n') || *end == 0x7F) {
+        if (((unsigned char)*end <= 0x1F && *end != '\r' && *end != '\n' && *end != '\t') || *end == 0x7F) {
             debugs(66, 2, "failed to parse a quoted-string header field with CTL octet " << (start-pos)
                    << " bytes into '" << start << "'");
             val->clean();
